@@ -433,3 +433,598 @@ def matmul(ex, st, l, r, node):
 
 
 M.matmul = matmul
+
+
+# ----------------------------------------------------------------------------------------------
+# func_get: closures, lists of closures / matrices built by comprehensions, try / except TypeError, batches of points
+#
+# theory
+mrow = z3.Function('mrow', T.Mat, I, RA)              # the entries of row i of a matrix as a vector: mrow(M, i)[j] = M[i, j]
+WL = z3.ArraySort(I, RA)                              # a batch of points X[s][k] / a list of weight vectors P[k][j] (same sort as mx_act.WL)
+pcol = z3.Function('pcol', WL, I, RA)                 # column k of a batch of points: pcol(X, k)[s] = X[s][k]
+bsel = z3.Function('bsel', MA, I, WL)                 # bsel(T, s)[k] = row s of the k-th matrix of the list T (weights of sample s, mode k)
+_X = z3.Const('X!fv', WL)
+_TA = z3.Const('T!fv', MA)
+_s = z3.Int('s!f')
+
+T.GROUPS['mrow'] = [
+    T.A([_M, _k, _j], mrow(_M, _k)[_j] == T.ent(_M, _k, _j), [mrow(_M, _k)[_j]]),
+    T.A([_X, _k, _s], pcol(_X, _k)[_s] == _X[_s][_k], [pcol(_X, _k)[_s]]),
+    T.A([_TA, _s, _k], bsel(_TA, _s)[_k] == mrow(T.row(_TA[_k], _s), 0), [bsel(_TA, _s)[_k]]),
+]
+chebscale = z3.Function('chebscale', R, R, R, R)      # the map of poi_scale(., a, b, 'cheb'): clip((x - (b+a)/2) * 2/(b-a), -1, 1); abstract inside e-matching proofs
+_ra, _rb = z3.Reals('a!fr b!fr')
+_aff = (_x - (_rb + _ra) / 2) * (2 / (_rb - _ra))
+T.GROUPS['chebscale'] = [
+    T.A([_x, _ra, _rb], z3.Implies(_ra < _rb, chebscale(_x, _ra, _rb) == z3.If(_aff < -1, -1, z3.If(_aff > 1, 1, _aff))), [chebscale(_x, _ra, _rb)]),
+]
+T.GROUPS['entsub'] = [
+    T.A([_M, _k, _j], T.ent(T.tr(_M), _k, _j) == T.ent(_M, _j, _k), [T.ent(T.tr(_M), _k, _j)]),
+    T.A([_M, _a, _k, _j], z3.Implies(z3.And(0 <= _j, _j < _a, _a <= T.cols(_M)), T.ent(V.lcols(_M, _a), _k, _j) == T.ent(_M, _k, _j)),
+        [T.ent(V.lcols(_M, _a), _k, _j)]),
+    T.A([_M, _k, _j], z3.Implies(z3.And(0 <= _k, _k < T.rows(_M)), T.ent(T.row(_M, _k), 0, _j) == T.ent(_M, _k, _j)), [T.ent(T.row(_M, _k), 0, _j)]),
+]
+
+
+def _mentions(f, c):
+    return M._mentions(f, c)
+
+
+def _fresh_after(term, cnt0):
+    """The engine-made fresh constants (name!N, N > cnt0) that occur in a term."""
+    out, stack, seen = {}, [term], set()
+    while stack:
+        t = stack.pop()
+        if t.get_id() in seen:
+            continue
+        seen.add(t.get_id())
+        if z3.is_const(t) and t.decl().kind() == z3.Z3_OP_UNINTERPRETED:
+            nm = t.decl().name()
+            if '!' in nm and nm.rsplit('!', 1)[1].isdigit() and int(nm.rsplit('!', 1)[1]) > cnt0:
+                out[nm] = t
+        elif z3.is_app(t):
+            stack.extend(t.children())
+        elif z3.is_quantifier(t):
+            stack.append(t.body())
+            for p in range(t.num_patterns()):
+                stack.extend(t.pattern(p).children())
+    return out
+
+
+class VClosure(VFunc):
+    """`lambda params: body` evaluated later with the values its free variables had when it was created (they must not be rebound in between)."""
+    def __init__(self, params, body, captured):
+        self.params, self.body, self.captured = params, body, captured
+        VFunc.__init__(self, 'lambda', self._call)
+
+    def _call(self, ex, st, args, kwargs, node):
+        if kwargs or len(args) != len(self.params):
+            raise Unsupported('call of a lambda with keywords / wrong arity')
+        used('lambda x: expr -> the expression evaluated at call time with the captured values of its free variables')
+        bind = dict(self.captured)
+        bind.update(zip(self.params, args))
+        saved = {nm: st.vars[nm] for nm in bind if nm in st.vars}
+        st.vars.update(bind)
+        try:
+            return ex.ev(self.body, st)
+        finally:
+            for nm in bind:
+                if nm in saved:
+                    st.vars[nm] = saved[nm]
+                else:
+                    st.vars.pop(nm, None)
+
+    def instantiate(self, j, k):
+        cap = {}
+        for nm, v in self.captured.items():
+            if isinstance(v, (z3.ExprRef,)):
+                cap[nm] = z3.substitute(v, (j, Z(k)))
+            elif isinstance(v, (int, float, bool, VStr)) or v is NONE:
+                cap[nm] = v
+            else:
+                raise Unsupported(f'list of closures: captured variable {nm} is not a number')
+        return VClosure(self.params, self.body, cap)
+
+
+_orig_ev_lambda = symex.Exec.ev_Lambda
+
+
+def _ev_Lambda(self, e, st):
+    if not on(self):
+        return _orig_ev_lambda(self, e, st)
+    a = e.args
+    if a.defaults or a.vararg or a.kwarg or a.kwonlyargs or getattr(a, 'posonlyargs', None):
+        raise Unsupported('lambda with defaults / starred parameters')
+    params = [x.arg for x in a.args]
+    free = {n.id for n in ast.walk(e.body) if isinstance(n, ast.Name) and isinstance(n.ctx, ast.Load)} - set(params)
+    captured = {nm: st.vars[nm] for nm in sorted(free) if nm in st.vars}
+    # the captured values are a snapshot: sound only for variables that the enclosing function never rebinds at its own level
+    # (parameters of a local `def` and comprehension targets live in their own scopes)
+    rebound = _function_level_stores(self.func.node) & set(captured)
+    if rebound:
+        raise Unsupported(f'lambda captures {sorted(rebound)}, which the enclosing function assigns: late binding is not modelled')
+    return VClosure(params, e.body, captured)
+
+
+def _function_level_stores(fnode):
+    out, stack = set(), list(fnode.body)
+    while stack:
+        n = stack.pop()
+        if isinstance(n, (ast.FunctionDef, ast.Lambda, ast.ListComp, ast.SetComp, ast.DictComp, ast.GeneratorExp, ast.ClassDef)):
+            continue
+        if isinstance(n, ast.Name) and isinstance(n.ctx, ast.Store):
+            out.add(n.id)
+        stack.extend(ast.iter_child_nodes(n))
+    return out
+
+
+symex.Exec.ev_Lambda = _ev_Lambda
+
+
+class FSeq(VSeq):
+    """[make_closure(..) for .. in seq]: element k is the prototype closure with the generic index replaced by k."""
+    def __init__(self, n, j, proto):
+        super().__init__(None, n, None, 'closures')
+        self.j, self.proto = j, proto
+
+    def get(self, k):
+        return self.proto.instantiate(self.j, k)
+
+    def copy(self):
+        return FSeq(self.n, self.j, self.proto)
+
+
+def _generalise(f, j, guard, sub, anchor):
+    """forall j. guard -> f  with the per-element constants replaced by functions of j; quantifiers of f are merged so that the patterns stay usable."""
+    if sub:
+        f = z3.substitute(f, *sub)
+    if z3.is_quantifier(f) and f.is_forall() and f.num_patterns() > 0:
+        vs = [z3.Const(f.var_name(i), f.var_sort(i)) for i in range(f.num_vars())]
+        body = z3.substitute_vars(f.body(), *reversed(vs))
+        pats = []
+        for p in range(f.num_patterns()):
+            terms = [z3.substitute_vars(t, *reversed(vs)) for t in f.pattern(p).children()]
+            if not any(_mentions(t, j) for t in terms):
+                terms.append(anchor)
+            pats.append(z3.MultiPattern(*terms) if len(terms) > 1 else terms[0])
+        return z3.ForAll([j] + vs, z3.Implies(guard, body), patterns=pats)
+    return z3.ForAll([j], z3.Implies(guard, f), patterns=[anchor])
+
+
+_orig_listcomp = M.listcomp
+
+
+def listcomp(ex, st, e):
+    if not on(ex) or len(e.generators) != 1 or e.generators[0].ifs:
+        return _orig_listcomp(ex, st, e)
+    g = e.generators[0]
+    npc, nobl, assumed, saved, cnt_it = len(st.pc), len(st.obl), set(st.assumed), dict(st.vars), ex.cnt
+    it = M.iteration(ex, st, g.iter, e)
+
+    def rollback():
+        del st.pc[npc:]
+        del st.obl[nobl:]
+        st.assumed.clear()
+        st.assumed.update(assumed)
+
+    if it.concrete is not None:
+        rollback()
+        return _orig_listcomp(ex, st, e)
+    j = ex.fresh_int('lc')
+    cntj = ex.cnt
+    mark = len(st.pc)
+    guard = z3.And(j >= 0, j < it.n)
+    st.pc.append(guard)
+    try:
+        ex.assign(g.target, it.bind(ex, st, j), st)
+        elt = st.deref(ex.ev(e.elt, st))
+    finally:
+        for k in list(st.vars):
+            if k not in saved:
+                del st.vars[k]
+            else:
+                st.vars[k] = saved[k]
+    is_mat = isinstance(elt, VArr) and elt.ndim == 2 and elt.tag == 'mat' and elt.t is not None
+    if not (isinstance(elt, VClosure) or is_mat):
+        rollback()
+        return _orig_listcomp(ex, st, e)
+    added = st.pc[mark + 1:]
+    del st.pc[mark:]
+    # per-element fresh constants become functions of the generic index (every element has its own)
+    per = {}
+    for t in added + ([elt.t, Z(elt.shape[0]), Z(elt.shape[1])] if is_mat else [v for v in elt.captured.values() if isinstance(v, z3.ExprRef)]):
+        per.update(_fresh_after(t, cntj))
+    sub = []
+    for nm, c in sorted(per.items()):
+        ex.cnt += 1
+        sub.append((c, z3.Function(f'{nm}@{ex.cnt}', I, c.sort())(j)))
+    if isinstance(elt, VClosure):
+        if sub:
+            raise Unsupported('list of closures over per-element intermediate values')
+        for f in added:
+            st.pc.append(f if not _mentions(f, j) and f.get_id() not in st.assumed else z3.ForAll([j], z3.Implies(guard, f)))
+        used('[closure(x) for x in seq] -> list of len(seq) closures, element k captures the values of element k')
+        return st.alloc(FSeq(it.n, j, elt))
+    arr = ex.fresh('lcmats', MA)
+    anchor = arr[j]
+    tsub = lambda t: z3.substitute(Z(t), *sub) if sub else Z(t)
+    st.pc.append(z3.ForAll([j], z3.Implies(guard, z3.And(arr[j] == tsub(elt.t), T.rows(arr[j]) == tsub(elt.shape[0]), T.cols(arr[j]) == tsub(elt.shape[1]))),
+                           patterns=[anchor]))
+    for f in added:
+        if not _mentions(f, j) and not _fresh_after(f, cntj) and f.get_id() not in st.assumed:
+            st.pc.append(f)
+        else:
+            st.pc.append(_generalise(f, j, guard, sub, anchor))
+    used('[matrix_expr(x) for x in seq] -> list of len(seq) matrices; what holds for the generic element holds for every element '
+         '(intermediate values of the element expression become functions of the position)')
+    return st.alloc(VSeq(arr, it.n, M.mk_mat, 'mats'))
+
+
+M.listcomp = listcomp
+_orig_try = M.try_stmt
+
+
+def try_stmt(ex, st, s):
+    if not on(ex) or s.orelse or s.finalbody or len(s.handlers) != 1 or s.handlers[0].name is not None \
+            or not (isinstance(s.handlers[0].type, ast.Name) and s.handlers[0].type.id == 'TypeError'):
+        return _orig_try(ex, st, s)
+    used('try: body / except TypeError: handler -> the handler runs on the paths where the body raises TypeError (the engine raises it nowhere: '
+         'operations that would are outside the supported subset)')
+    out = []
+    for s1, o1 in ex.exec_block(s.body, st):
+        if o1.kind == 'raise' and o1.exc == 'TypeError':
+            out.extend(ex.exec_block(s.handlers[0].body, s1))
+        else:
+            out.append((s1, o1))
+    return out
+
+
+M.try_stmt = try_stmt
+
+
+# ---- batches of points: a 2-D float array of shape (m, d) with denotation X: s -> (k -> X[s, k])   (tags 'pts', transposed view 'ptsT')
+
+def pts(m, d, Xt):
+    return VArr((m, d), Xt, 'pts', 'f')
+
+
+def _is_none_const(e):
+    return isinstance(e, ast.Constant) and e.value is None
+
+
+_orig_index2 = M.arr_index
+
+
+def arr_index2(ex, st, a, sl_, node):
+    if on(ex) and isinstance(a, VArr) and isinstance(sl_, ast.Tuple) and len(sl_.elts) == 2:
+        e0, e1 = sl_.elts
+        if a.tag == 'pts' and a.ndim == 2 and _full(e1) and not isinstance(e0, ast.Slice) and not _is_none_const(e0):
+            iv = ex.ev(e0, st)
+            if is_num(iv) and is_intsort(iv):
+                i = M.norm_index(ex, st, iv, a.shape[0], node, 'row-index')
+                used('X[i, :] of a 2-D float array -> its i-th row')
+                return rvec(a.shape[1], a.t[Z(i)])
+        if is_vec(a, 'rvec') and _is_none_const(e0) and _full(e1):
+            used('x[None, :] of a 1-D float array -> the 1 x n array with that row')
+            return pts(1, a.shape[0], z3.K(I, a.t))
+    return _orig_index2(ex, st, a, sl_, node)
+
+
+M.arr_index = arr_index2
+_orig_attribute = M.attribute
+
+
+def attribute(ex, st, v, attr, node):
+    if on(ex) and isinstance(v, VArr) and v.tag == 'pts' and attr == 'T':
+        used('X.T of a 2-D float array -> the transposed view')
+        return VArr((v.shape[1], v.shape[0]), v.t, 'ptsT', 'f')
+    return _orig_attribute(ex, st, v, attr, node)
+
+
+M.attribute = attribute
+_orig_iter_of_value2 = M._iter_of_value
+
+
+def _iter_of_value2(ex, st, v, node):
+    w = st.deref(v)
+    if on(ex) and isinstance(w, VArr) and w.tag == 'ptsT' and w.ndim == 2:
+        used('iteration over X.T -> the columns of X in order')
+        return Z(w.shape[0]), (lambda k, w=w: rvec(w.shape[1], pcol(w.t, k))), False
+    return _orig_iter_of_value2(ex, st, v, node)
+
+
+M._iter_of_value = _iter_of_value2
+_orig_binop2 = M.arr_binop
+
+
+def arr_binop2(ex, st, op, l, r, node):
+    if on(ex) and isinstance(op, ast.Sub) and is_vec(l, 'rvec') and is_vec(r, 'rvec'):
+        used('u - v for two 1-D float arrays -> elementwise (requires equal lengths)')
+        ex.oblige(st, 'call-pre', 'elementwise-shapes-agree', Z(l.shape[0]) == Z(r.shape[0]), node)
+        arr = ex.fresh('vdiff', RA)
+        st.assume(z3.ForAll([_k], arr[_k] == l.t[_k] - r.t[_k], patterns=[arr[_k], l.t[_k], r.t[_k]]))
+        return rvec(l.shape[0], arr)
+    return _orig_binop2(ex, st, op, l, r, node)
+
+
+M.arr_binop = arr_binop2
+_orig_npmax = M.FUNCS['np.max']
+
+
+@model('np.max')
+def m_npmax_vec(ex, st, args, kwargs, node):
+    v = st.deref(args[0]) if len(args) == 1 else None
+    if on(ex) and not kwargs and is_vec(v, 'rvec'):
+        used('np.max(v) of a 1-D float array -> an element of v that no element exceeds (requires a non-empty array)')
+        n = Z(v.shape[0])
+        ex.oblige(st, 'call-pre', 'max-of-a-non-empty-array', n >= 1, node)
+        mx, w = ex.fresh_real('max'), ex.fresh_int('argmax')
+        st.assume(z3.And(0 <= w, w < n, v.t[w] == mx), z3.ForAll([_k], z3.Implies(z3.And(0 <= _k, _k < n), v.t[_k] <= mx), patterns=[v.t[_k]]))
+        return mx
+    return _orig_npmax(ex, st, args, kwargs, node)
+
+
+_orig_store2 = M.store
+
+
+def store2(ex, st, base, sl_, v, node, base_node):
+    b = st.deref(base)
+    if on(ex) and is_vec(b, 'rvec') and isinstance(base_node, ast.Name) and not isinstance(sl_, (ast.Slice, ast.Tuple, ast.Compare)):
+        iv = ex.ev(sl_, st)
+        if is_num(iv) and is_intsort(iv) and is_num(v):
+            i = M.norm_index(ex, st, iv, b.shape[0], node, 'array-index')
+            used('y[i] = x on a 1-D float array -> the array with element i replaced')
+            arr = ex.fresh('yupd', RA)
+            st.assume(arr == z3.Store(b.t, Z(i), to_real(v)))
+            st.vars[base_node.id] = rvec(b.shape[0], arr)
+            return
+    return _orig_store2(ex, st, base, sl_, v, node, base_node)
+
+
+M.store = store2
+_orig_einsum2 = M.FUNCS['np.einsum']
+
+
+@model('np.einsum')
+def m_einsum_get(ex, st, args, kwargs, node):
+    sub = args[0].concrete() if args and isinstance(args[0], VStr) else None
+    key = (sub or '').replace(' ', '')
+    if on(ex) and key == 'rjq,j->rq' and len(args) == 3 and not kwargs:
+        G, w = st.deref(args[1]), st.deref(args[2])
+        if isinstance(G, VArr) and G.ndim == 3 and G.tag == 'core' and G.t is not None and isinstance(w, VArr) and w.ndim == 1 and w.tag == 'vec' \
+                and w.t is not None:
+            used("np.einsum('rjq,j->rq', G, w) -> weighted mode sum wsum(G, w) = sum_j w[j] G[:, j, :]; requires len(w) = n(G)")
+            ex.oblige(st, 'call-pre', 'einsum-contracted-dimensions-agree', Z(G.shape[1]) == Z(w.shape[0]), node)
+            return VArr((G.shape[0], G.shape[2]), T.wsum(G.t, mrow(w.t, 0)), 'mat')
+    return _orig_einsum2(ex, st, args, kwargs, node)
+
+
+# ----------------------------------------------------------------------------------------------
+# func_diff_matrix (shape / control tier): NumPy calls on 2-D arrays of which only the SHAPE is tracked.  Active only with
+# `ex.functt_shapes = True` in addition to `ex.functt`.  A product  <2-D array> * <number>  remembers its two operands in `.scaled_by`.
+
+def shapes_on(ex):
+    return on(ex) and getattr(ex, 'functt_shapes', False)
+
+
+def _arr2(v):
+    return isinstance(v, VArr) and v.ndim == 2
+
+
+def _shape_model(name, fn):
+    orig = M.FUNCS.get(name)
+
+    def h(ex, st, args, kwargs, node):
+        if shapes_on(ex):
+            out = fn(ex, st, args, kwargs, node)
+            if out is not None:
+                return out
+        if orig is None:
+            raise Unsupported(f'{name} calling pattern')
+        return orig(ex, st, args, kwargs, node)
+    M.FUNCS[name] = h
+
+
+def _m_tile(ex, st, args, kwargs, node):
+    v = st.deref(args[0]) if args else None
+    reps = st.deref(args[1]) if len(args) == 2 else None
+    if not kwargs and isinstance(v, VArr) and v.ndim == 1 and isinstance(reps, (VTuple, VList)) and len(reps.items) == 2 and _is_1(reps.items[1]):
+        r = ex.need_num(st, reps.items[0], node)
+        used('np.tile(v, (r, 1)) of a 1-D array -> r x len(v) array (every row is v); shape only')
+        ex.oblige(st, 'call-pre', 'non-negative-repetition-count', Z(r) >= 0, node)
+        return VArr((r, v.shape[0]), None, None, 'f')
+
+
+def _m_same_shape(what):
+    def f(ex, st, args, kwargs, node):
+        v = st.deref(args[0]) if len(args) == 1 else None
+        if not kwargs and isinstance(v, VArr) and (what == 'np.sin' or v.ndim == 2):
+            used(f'{what}(A) -> array of the same shape (shape only)')
+            return VArr(v.shape, None, None, 'f')
+    return f
+
+
+def _m_ceil(ex, st, args, kwargs, node):
+    if len(args) == 1 and not kwargs and is_num(args[0]):
+        v = args[0]
+        used('np.ceil(x) -> integer-valued c with c - 1 < x <= c')
+        c = ex.fresh_int('ceil')
+        st.assume(z3.ToReal(c) - 1 < to_real(v), to_real(v) <= z3.ToReal(c))
+        return z3.ToReal(c)
+
+
+def _m_toeplitz(ex, st, args, kwargs, node):
+    v = st.deref(args[0]) if len(args) == 1 else None
+    if not kwargs and isinstance(v, VArr) and v.ndim == 1:
+        used('scipy.linalg.toeplitz(c) of a 1-D array -> symmetric len(c) x len(c) array (shape only)')
+        return VArr((v.shape[0], v.shape[0]), None, None, 'f')
+
+
+def _m_diag2(ex, st, args, kwargs, node):
+    v = st.deref(args[0]) if len(args) == 1 else None
+    if not kwargs and _arr2(v):
+        used('np.diag(A) of a square 2-D array -> its diagonal, length n (shape only)')
+        ex.oblige(st, 'call-pre', 'diag-of-a-square-matrix', Z(v.shape[0]) == Z(v.shape[1]), node)
+        return VArr((v.shape[0],), None, None, 'f')
+
+
+def _m_sum_rows(ex, st, args, kwargs, node):
+    v = st.deref(args[0]) if len(args) == 1 else None
+    if set(kwargs) == {'axis'} and kwargs['axis'] == 1 and _arr2(v):
+        used('np.sum(A, axis=1) of a 2-D array -> vector of the row sums, length rows(A) (shape only)')
+        return VArr((v.shape[0],), None, None, 'f')
+
+
+for _nm, _fn in (('np.tile', _m_tile), ('np.sin', _m_same_shape('np.sin')), ('np.flipud', _m_same_shape('np.flipud')),
+                 ('np.fliplr', _m_same_shape('np.fliplr')), ('np.ceil', _m_ceil), ('sp.linalg.toeplitz', _m_toeplitz),
+                 ('scipy.linalg.toeplitz', _m_toeplitz), ('np.diag', _m_diag2), ('np.sum', _m_sum_rows)):
+    _shape_model(_nm, _fn)
+
+_orig_binop3 = M.arr_binop
+
+
+def arr_binop3(ex, st, op, l, r, node):
+    if shapes_on(ex):
+        if isinstance(op, ast.Pow) and is_num(l) and not is_intsort(l) and isinstance(r, VArr) and r.ndim == 1:
+            used('x ** v for a float x and a 1-D array v -> array of the same length (shape only)')
+            return VArr(r.shape, None, None, 'f')
+        if isinstance(op, ast.Div) and is_num(l) and _arr2(r):
+            used('x / A for a number x and a 2-D array A -> array of the same shape (elementwise; a zero entry gives inf, not an exception; shape only)')
+            return VArr(r.shape, None, None, 'f')
+        if isinstance(op, ast.Mult) and _arr2(l) and is_num(r):
+            out = _orig_binop3(ex, st, op, l, r, node)
+            if isinstance(out, VArr):
+                out.scaled_by = (l, r)
+            return out
+    return _orig_binop3(ex, st, op, l, r, node)
+
+
+M.arr_binop = arr_binop3
+
+
+# ----------------------------------------------------------------------------------------------
+# func_int_general (control / shape tier): per-core least squares in a user basis
+#
+# theory (shapes and the unfold / fold round trip only; the VALUE of the least-squares solution is the uninterpreted lsqsol(H, M)):
+munf = z3.Function('munf', T.Core, T.Mat)             # np.transpose(G, [1, 0, 2]).reshape(n, -1): the mode unfolding, n x (r1 r2)
+mfold = z3.Function('mfold', T.Mat, I, I, T.Core)     # np.transpose(M.reshape(n, r1, r2), [1, 0, 2]): its inverse, shape (r1, n, r2)
+lsqsol = z3.Function('lsqsol', T.Mat, T.Mat, T.Mat)   # scipy.linalg.lstsq(H, M)[0]: a least-squares solution of H Q = M (shape axioms only here)
+T.GROUPS['lsqsol'] = [
+    T.A([_G], z3.And(T.rows(munf(_G)) == T.d1(_G), T.cols(munf(_G)) == T.mulI(T.d0(_G), T.d2(_G))), [munf(_G)]),
+    T.A([_M, _a, _b], z3.And(T.d0(mfold(_M, _a, _b)) == _a, T.d1(mfold(_M, _a, _b)) == T.rows(_M), T.d2(mfold(_M, _a, _b)) == _b), [mfold(_M, _a, _b)]),
+    T.A([_M, _a, _b], z3.Implies(z3.And(_a >= 1, _b >= 1, T.cols(_M) == T.mulI(_a, _b)), munf(mfold(_M, _a, _b)) == _M), [mfold(_M, _a, _b)]),
+    T.A([_M, T.b_], z3.Implies(T.rows(_M) == T.rows(T.b_), z3.And(T.rows(lsqsol(_M, T.b_)) == T.cols(_M), T.cols(lsqsol(_M, T.b_)) == T.cols(T.b_))),
+        [lsqsol(_M, T.b_)]),
+]
+
+
+class ConstSeq(VSeq):
+    """`[x] * n` for an array x: every element is (the same object) x."""
+    def __init__(self, value, n):
+        super().__init__(None, n, None, 'const')
+        self.value = value
+
+    def get(self, k):
+        return self.value
+
+    def copy(self):
+        return ConstSeq(self.value, self.n)
+
+
+_orig_list_repeat2 = M.list_repeat
+
+
+def list_repeat2(ex, st, lst, n, node):
+    if on(ex) and len(lst.items) == 1 and isinstance(st.deref(lst.items[0]), VArr):
+        used('[x] * n for an array x -> list of n references to x')
+        return st.alloc(ConstSeq(lst.items[0], Z(n)))
+    return _orig_list_repeat2(ex, st, lst, n, node)
+
+
+M.list_repeat = list_repeat2
+_orig_iter_of_value3 = M._iter_of_value
+
+
+def _iter_of_value3(ex, st, v, node):
+    w = st.deref(v)
+    if on(ex) and isinstance(w, VArr) and w.tag == 'pts' and w.ndim == 2:
+        used('iteration over a 2-D float array -> its rows in order')
+        return Z(w.shape[0]), (lambda k, w=w: rvec(w.shape[1], w.t[k])), False
+    return _orig_iter_of_value3(ex, st, v, node)
+
+
+M._iter_of_value = _iter_of_value3
+
+
+def _is_perm102(v, st):
+    v = st.deref(v)
+    return isinstance(v, (VList, VTuple)) and [x for x in v.items] == [1, 0, 2]
+
+
+_orig_transpose = M.FUNCS.get('np.transpose')
+
+
+@model('np.transpose')
+def m_transpose(ex, st, args, kwargs, node):
+    a = st.deref(args[0]) if args else None
+    if on(ex) and len(args) == 2 and not kwargs and isinstance(a, VArr) and a.ndim == 3 and _is_perm102(args[1], st):
+        if a.tag == 'core' and a.t is not None:
+            used('np.transpose(G, [1, 0, 2]) -> the mode axis first: shape (n, r1, r2)')
+            return VArr((a.shape[1], a.shape[0], a.shape[2]), a.t, 'core102')
+        if a.tag == 'mat3' and a.t is not None:
+            used('np.transpose(M.reshape(n, r1, r2), [1, 0, 2]) -> mfold(M, r1, r2): the core of shape (r1, n, r2) whose mode unfolding is M')
+            return VArr((a.shape[1], a.shape[0], a.shape[2]), mfold(a.t, Z(a.shape[1]), Z(a.shape[2])), 'core')
+    if _orig_transpose is None:
+        raise Unsupported('np.transpose pattern')
+    return _orig_transpose(ex, st, args, kwargs, node)
+
+
+_orig_reshape2 = M.reshape
+
+
+def reshape2(ex, st, a, shp, order, node):
+    if on(ex) and isinstance(a, VArr) and a.t is not None and a.tag in ('core102', 'mat'):
+        try:
+            dims = M.shape_arg(ex, st, shp, node)
+        except Unsupported:
+            dims = None
+        o = order.concrete() if isinstance(order, VStr) else None
+        if dims is not None and o == 'C' and a.tag == 'core102' and len(dims) == 2 and _is_m1(dims[1]) and not _is_m1(dims[0]):
+            used('np.transpose(G, [1, 0, 2]).reshape(n, -1) -> munf(G): the n x (r1 r2) mode unfolding; requires n = the mode size')
+            ex.oblige(st, 'call-pre', 'reshape-first-dimension-is-the-mode-size', Z(dims[0]) == Z(a.shape[0]), node)
+            return M.mk_mat(munf(a.t))
+        if dims is not None and o == 'C' and a.tag == 'mat' and len(dims) == 3 and not any(_is_m1(x) for x in dims) and getattr(ex, 'functt_lsq', False):
+            used('Q.reshape(n, r1, r2) of a matrix -> 3-D view; the size must be preserved (here: rows = n and columns = r1 r2)')
+            ex.oblige(st, 'call-pre', 'reshape-preserves-size', z3.And(Z(a.shape[0]) == Z(dims[0]), Z(a.shape[1]) == T.mul_canon(dims[1], dims[2])), node)
+            return VArr(tuple(dims), a.t, 'mat3')
+    return _orig_reshape2(ex, st, a, shp, order, node)
+
+
+M.reshape = reshape2
+LSTSQ_PARAMS = ('a', 'b', 'cond', 'overwrite_a', 'overwrite_b', 'check_finite', 'lapack_driver')     # scipy.linalg.lstsq
+
+
+_orig_lstsq = {nm: M.FUNCS.get(nm) for nm in ('sp.linalg.lstsq', 'scipy.linalg.lstsq')}
+
+
+@model('sp.linalg.lstsq', 'scipy.linalg.lstsq')
+def m_lstsq(ex, st, args, kwargs, node):
+    if not (on(ex) and getattr(ex, 'functt_lsq', False)):
+        prev = _orig_lstsq.get(ast.unparse(node.func)) or _orig_lstsq['sp.linalg.lstsq']
+        if prev is None:
+            raise Unsupported('scipy.linalg.lstsq outside the functional tier')
+        return prev(ex, st, args, kwargs, node)
+    for kw in kwargs:
+        ex.oblige(st, 'call-pre', f'scipy.linalg.lstsq-has-a-parameter-named-{kw}', z3.BoolVal(kw in LSTSQ_PARAMS), node)
+    bound = dict(zip(LSTSQ_PARAMS, args))
+    bound.update({k: v for k, v in kwargs.items() if k in LSTSQ_PARAMS})
+    H, Mx = st.deref(bound.get('a')), st.deref(bound.get('b'))
+    if not (isinstance(H, VArr) and H.ndim == 2 and H.tag == 'mat' and H.t is not None and isinstance(Mx, VArr) and Mx.ndim == 2 and Mx.tag == 'mat'
+            and Mx.t is not None):
+        raise Unsupported('scipy.linalg.lstsq: operands without a denotation')
+    used('scipy.linalg.lstsq(H, M, cond, overwrite_a, overwrite_b) -> (Q, residues, rank, singular values), Q = lsqsol(H, M) of shape '
+         '(cols H, cols M); requires rows H = rows M   [A-LAPACK]')
+    ex.oblige(st, 'call-pre', 'lstsq-row-counts-agree', Z(H.shape[0]) == Z(Mx.shape[0]), node)
+    st.ghost.setdefault('lstsq_calls', []).append(dict(H=H, M=Mx, cond=bound.get('cond', NONE), overwrite_a=bound.get('overwrite_a', False),
+                                                       overwrite_b=bound.get('overwrite_b', False)))
+    return VTuple([M.mk_mat(lsqsol(H.t, Mx.t)), VOpaque('residues'), VOpaque('rank'), VOpaque('singular values')])
